@@ -1,7 +1,7 @@
 //! C04 — after a successful refresh the wallet's books equal the chain's truth.
 
 use crate::gen::{GenCfg, HistGen};
-use crate::ops::{Op, Step, StepOut};
+use crate::ops::{Op, SendArgs, Step, StepOut};
 use crate::run::{sample_trace, Prop, Run, Violation};
 use crate::world::Snap;
 use grin_core::global;
@@ -18,6 +18,19 @@ pub struct C04 {
 	refreshes_judged: u64,
 	last_digest: BTreeMap<(usize, String), u64>,
 	had_outage: BTreeSet<usize>,
+	/// scripted "zero-confirmation relay": B receives from A and spends the still
+	/// unconfirmed output on (minimum_confirmations 0) before either transaction is
+	/// mined; then both are posted and mined and B refreshes
+	relay: Option<Relay>,
+	relays_left: u32,
+}
+
+struct Relay {
+	a: usize,
+	b: usize,
+	stage: u32,
+	d1: Option<uuid::Uuid>,
+	d2: Option<uuid::Uuid>,
 }
 
 impl C04 {
@@ -42,7 +55,47 @@ impl C04 {
 			refreshes_judged: 0,
 			last_digest: BTreeMap::new(),
 			had_outage: BTreeSet::new(),
+			relay: None,
+			relays_left: if run.rng.chance(1, 4) { 1 + run.rng.below(2) as u32 } else { 0 },
 		}
+	}
+
+	fn relay_step(&mut self, run: &mut Run) -> Option<Step> {
+		let r = self.relay.as_mut()?;
+		let deal = |id: &Option<uuid::Uuid>| id.and_then(|i| run.model.deal_of(&i)).map(|d| run.model.deals[d].clone());
+		let d1 = deal(&r.d1);
+		let d2 = deal(&r.d2);
+		let st = match r.stage {
+			0 => {
+				let mut a = SendArgs::simple(run.rng.range(2, 40) * 1_000_000_000 + run.rng.below(1000));
+				a.min_conf = 1;
+				a.num_change = 1 + run.rng.below(2) as u32;
+				Op::InitSend { w: r.a, args: a }
+			}
+			1 => Op::Receive { w: r.b, m: d1.as_ref()?.m1, dest: None, enc: crate::ops::Enc::Mem },
+			2 => Op::Lock { w: r.a, m: d1.as_ref()?.m1 },
+			3 => Op::Finalize { w: r.a, m: d1.as_ref()?.m2?, foreign: false },
+			4 => {
+				let amt = d1.as_ref()?.amount / 2 + run.rng.below(1000);
+				let mut a = SendArgs::simple(amt);
+				a.min_conf = 0;
+				a.use_all = true;
+				a.num_change = 1;
+				run.cov.probe("zero_conf_relay_of_unconfirmed_receipt");
+				Op::InitSend { w: r.b, args: a }
+			}
+			5 => Op::Receive { w: r.a, m: d2.as_ref()?.m1, dest: None, enc: crate::ops::Enc::Mem },
+			6 => Op::Lock { w: r.b, m: d2.as_ref()?.m1 },
+			7 => Op::Finalize { w: r.b, m: d2.as_ref()?.m2?, foreign: false },
+			8 => Op::Post { w: r.a, m: d1.as_ref()?.m3? },
+			9 => Op::Post { w: r.b, m: d2.as_ref()?.m3? },
+			10 => Op::Mine { w: None, n: 1 + run.rng.below(2) as u32, txs: true },
+			11 => Op::Refresh { w: r.b },
+			12 => Op::Refresh { w: r.a },
+			_ => return None,
+		};
+		r.stage += 1;
+		Some(Step::new(st))
 	}
 
 	fn update_taint(&mut self, run: &Run, step: &Step, out: &StepOut) {
@@ -321,6 +374,27 @@ impl Prop for C04 {
 	}
 
 	fn next(&mut self, run: &mut Run) -> Option<Step> {
+		if self.relay.is_some() {
+			match self.relay_step(run) {
+				Some(s) => return Some(s),
+				None => self.relay = None,
+			}
+		}
+		if self.gen.setup_done && self.relays_left > 0 && run.rng.chance(1, 8) {
+			let nw = run.ex.world.wallets.len();
+			if nw >= 2 && !run.ex.world.chain.is_down() {
+				let a = run.rng.idx(nw);
+				let b = (a + 1 + run.rng.idx(nw - 1)) % nw;
+				if run.ex.world.is_open(a) && run.ex.world.is_open(b) {
+					self.relays_left -= 1;
+					self.relay = Some(Relay { a, b, stage: 0, d1: None, d2: None });
+					if let Some(s) = self.relay_step(run) {
+						return Some(s);
+					}
+					self.relay = None;
+				}
+			}
+		}
 		self.gen.next(run)
 	}
 
@@ -337,6 +411,22 @@ impl Prop for C04 {
 		let mut v = vec![];
 		self.gen.feedback(run, step, out);
 		self.update_taint(run, step, out);
+		if let Some(r) = self.relay.as_mut() {
+			let mut abort = !out.ok && !matches!(step.op, Op::Refresh { .. } | Op::Mine { .. });
+			if let (Op::InitSend { .. }, Some(m)) = (&step.op, out.new_msg) {
+				let id = run.ex.msgs[m].slate.id;
+				if r.stage == 1 {
+					r.d1 = Some(id);
+				} else if r.stage == 5 {
+					r.d2 = Some(id);
+				}
+			} else if matches!(step.op, Op::InitSend { .. }) {
+				abort = true;
+			}
+			if abort {
+				self.relay = None;
+			}
+		}
 		if let Op::Scan { w, .. } = &step.op {
 			if out.ok {
 				// a completed scan brings the wallet back into scope, unless an
